@@ -24,6 +24,8 @@ type guard struct {
 	Kind  string `json:"kind"`
 }
 
+var stay = new(bool)
+
 func leaves(body []ast.Stmt) bool {
 	found := false
 	for _, s := range body {
@@ -46,6 +48,7 @@ func leaves(body []ast.Stmt) bool {
 
 func main() {
 	dir := flag.String("dir", "/repo", "repository")
+	flag.BoolVar(stay, "stay", false, "also list tests whose body stays in the normal flow")
 	flag.Parse()
 	var out []guard
 	filepath.Walk(*dir, func(path string, info os.FileInfo, err error) error {
@@ -95,10 +98,11 @@ func main() {
 				case *ast.IfStmt:
 					if leaves(x.Body.List) {
 						add(x.Cond, "if")
-					} else if x.Else != nil {
-						if eb, ok := x.Else.(*ast.BlockStmt); ok && leaves(eb.List) {
-							add(x.Cond, "if-else-leaves")
-						}
+					} else if eb, ok := x.Else.(*ast.BlockStmt); ok && leaves(eb.List) {
+						add(x.Cond, "if-else-leaves")
+					} else if *stay {
+						// a test whose body stays in the flow (selects, assigns, records): `-stay` lists these too
+						add(x.Cond, "if-stay")
 					}
 				case *ast.SwitchStmt:
 					if x.Tag == nil {
@@ -106,6 +110,8 @@ func main() {
 							cl := cc.(*ast.CaseClause)
 							if len(cl.List) == 1 && leaves(cl.Body) {
 								add(cl.List[0], "case")
+							} else if len(cl.List) == 1 && *stay {
+								add(cl.List[0], "case-stay")
 							}
 						}
 					}
